@@ -411,3 +411,6 @@ func (s *peerSys) Check() []explore.Viol {
 	}
 	return s.Viols
 }
+
+// MacOf is macOf for the Engine B scenarios.
+func MacOf(h string) net.HardwareAddr { return macOf(h) }
